@@ -158,6 +158,13 @@ class Check:
         if not self.replay_filter:
             with open(os.path.join(evdir, "%s.json" % self.pid), "w") as fh:
                 json.dump(ev, fh, indent=1)
+        try:
+            self._report(total, oks, known_hits, viol, lines)
+        except BrokenPipeError:
+            pass
+        return 1 if viol else 0
+
+    def _report(self, total, oks, known_hits, viol, lines):
         print("%s: %d rule instances, %d ok, %d known findings, %d violations (%.1fs)" % (
             self.pid, total, oks, len(known_hits), len(viol), time.time() - self.t0))
         for r, c in sorted(self.rule_counts.items()):
